@@ -622,11 +622,32 @@ func c20InferenceProbe() {
 		func() string { return bindnode.Wrap(&c20F4{Z: [][]int64{{1}}}, nil).Type().Name() },
 		func() string { return bindnode.Prototype((*c20F5)(nil), nil).Type().Name() },
 		func() string { return bindnode.Wrap(&c20F6{}, nil).Type().Name() },
+		func() string { return bindnode.Prototype((*c20G0)(nil), nil).Type().Name() },
+		func() string { return bindnode.Wrap(&c20G1{B1: []c20G1b{{C1: 1}}}, nil).Type().Name() },
+		func() string { return bindnode.Prototype((*c20G2)(nil), nil).Type().Name() },
+		func() string { return bindnode.Wrap(&c20G3{B3: []c20G3b{{C3: 1}}}, nil).Type().Name() },
+		func() string { return bindnode.Prototype((*c20G4)(nil), nil).Type().Name() },
+		func() string { return bindnode.Wrap(&c20G5{B5: []c20G5b{{C5: 1}}}, nil).Type().Name() },
+		func() string { return bindnode.Prototype((*c20G6)(nil), nil).Type().Name() },
+		func() string { return bindnode.Wrap(&c20G7{B7: []c20G7b{{C7: 1}}}, nil).Type().Name() },
+		func() string { return bindnode.Prototype((*c20G8)(nil), nil).Type().Name() },
+		func() string { return bindnode.Wrap(&c20G9{B9: []c20G9b{{C9: 1}}}, nil).Type().Name() },
+		func() string { return bindnode.Prototype((*c20G10)(nil), nil).Type().Name() },
+		func() string { return bindnode.Wrap(&c20G11{B11: []c20G11b{{C11: 1}}}, nil).Type().Name() },
+		func() string { return bindnode.Prototype((*c20G12)(nil), nil).Type().Name() },
+		func() string { return bindnode.Wrap(&c20G13{B13: []c20G13b{{C13: 1}}}, nil).Type().Name() },
+		func() string { return bindnode.Prototype((*c20G14)(nil), nil).Type().Name() },
+		func() string { return bindnode.Wrap(&c20G15{B15: []c20G15b{{C15: 1}}}, nil).Type().Name() },
+		func() string { return bindnode.Prototype((*c20G16)(nil), nil).Type().Name() },
+		func() string { return bindnode.Wrap(&c20G17{B17: []c20G17b{{C17: 1}}}, nil).Type().Name() },
 	}
 	for round, f := range fresh {
-		const G = 8
+		// (24 types in turn, 8 to 32 goroutines each, released by a spinning barrier so that the first calls
+		// really coincide also on a loaded machine)
+		G := []int{8, 16, 32}[round%3]
 		names := make([]string, G)
 		fails := make([]string, G)
+		var ready int32
 		start := make(chan struct{})
 		var wg2 sync.WaitGroup
 		for g := 0; g < G; g++ {
@@ -639,6 +660,10 @@ func c20InferenceProbe() {
 					}
 				}()
 				<-start
+				atomic.AddInt32(&ready, 1)
+				for atomic.LoadInt32(&ready) < int32(G) {
+					runtime.Gosched()
+				}
 				names[g] = f()
 			}(g)
 		}
@@ -678,6 +703,96 @@ type (
 		T []c20F0b
 		U []float64
 	}
+	c20G0 struct {
+		A0 string
+		B0 []c20G0b
+	}
+	c20G0b struct{ C0 int64 }
+	c20G1  struct {
+		A1 string
+		B1 []c20G1b
+	}
+	c20G1b struct{ C1 int64 }
+	c20G2  struct {
+		A2 string
+		B2 []c20G2b
+	}
+	c20G2b struct{ C2 int64 }
+	c20G3  struct {
+		A3 string
+		B3 []c20G3b
+	}
+	c20G3b struct{ C3 int64 }
+	c20G4  struct {
+		A4 string
+		B4 []c20G4b
+	}
+	c20G4b struct{ C4 int64 }
+	c20G5  struct {
+		A5 string
+		B5 []c20G5b
+	}
+	c20G5b struct{ C5 int64 }
+	c20G6  struct {
+		A6 string
+		B6 []c20G6b
+	}
+	c20G6b struct{ C6 int64 }
+	c20G7  struct {
+		A7 string
+		B7 []c20G7b
+	}
+	c20G7b struct{ C7 int64 }
+	c20G8  struct {
+		A8 string
+		B8 []c20G8b
+	}
+	c20G8b struct{ C8 int64 }
+	c20G9  struct {
+		A9 string
+		B9 []c20G9b
+	}
+	c20G9b struct{ C9 int64 }
+	c20G10 struct {
+		A10 string
+		B10 []c20G10b
+	}
+	c20G10b struct{ C10 int64 }
+	c20G11  struct {
+		A11 string
+		B11 []c20G11b
+	}
+	c20G11b struct{ C11 int64 }
+	c20G12  struct {
+		A12 string
+		B12 []c20G12b
+	}
+	c20G12b struct{ C12 int64 }
+	c20G13  struct {
+		A13 string
+		B13 []c20G13b
+	}
+	c20G13b struct{ C13 int64 }
+	c20G14  struct {
+		A14 string
+		B14 []c20G14b
+	}
+	c20G14b struct{ C14 int64 }
+	c20G15  struct {
+		A15 string
+		B15 []c20G15b
+	}
+	c20G15b struct{ C15 int64 }
+	c20G16  struct {
+		A16 string
+		B16 []c20G16b
+	}
+	c20G16b struct{ C16 int64 }
+	c20G17  struct {
+		A17 string
+		B17 []c20G17b
+	}
+	c20G17b struct{ C17 int64 }
 )
 
 func setProcs(n int) int { return runtime.GOMAXPROCS(n) }
@@ -690,7 +805,7 @@ var c20FSPools int64
 // Orchestrate runs the batches and then turns race reports into deviations.
 func (c20) Orchestrate(p *fw.Parent) error {
 	p.RunBatches()
-	for k := 0; k < 3; k++ {
+	for k := 0; k < 6; k++ {
 		cmd := exec.Command(p.ChildBinary(true), "-aux", "c20probe")
 		cmd.Env = append(os.Environ(), "GORACE=halt_on_error=0 log_path="+filepath.Join(p.WorkDir, fmt.Sprintf("race.bprobe%d", k)))
 		out, err := cmd.CombinedOutput()
